@@ -118,7 +118,7 @@ def run(chk, tier, want):
         prog = _prog_json(st["prog"])
         pname = canon_prog(prog)
         results = {}
-        opaque = any(s["k"] == "O" for s in prog)
+        opaque = any(s["k"] in ("O", "J") for s in prog)
         for ci, c in enumerate(st["calls"]):
             if c["a"] == "unseeded":
                 genjax.normal.sample(0.0, 1.0)          # foreign unseeded sampling: bumps the hidden global counter
